@@ -69,16 +69,28 @@ Theorem cond_helper_decides f r c fn :
   follow U (S f) r c =
     (let '(c1, a) := collect_args c (condHlpArg r) [] in
      let '(c2, n) := log_call c1 (bs "cond") (condHlp r) a in
-     match cerr c2 with
-     | Some x => (c2, Some x)
-     | None => branch (follow U f) r c2 (fn n a) None
+     let c3 := match snd (fn n a) with Some x => w_cerr c2 (Some x) | None => c2 end in
+     match cerr c3 with
+     | Some x => (c3, Some x)
+     | None => branch (follow U f) r c3 (fst (fn n a)) None
      end).
 Proof.
   intros H1 H2 H3 H4. simpl. rewrite H1. simpl.
   destruct (condHlp r) as [|h hs] eqn:Eh; [congruence|].
   rewrite H3. simpl. unfold call_cond. rewrite H4.
   destruct (collect_args c (condHlpArg r) []) as [c1 a].
-  unfold log_call. reflexivity.
+  unfold log_call. destruct (fn (ncalls c1) a) as [b e]. reflexivity.
+Qed.
+
+(* a helper that reports a failure through ctx.Err fails the rule with it *)
+Corollary cond_helper_failure f r c fn :
+  typ r = typeCond -> condHlp r <> [] -> condLC r = lcNone -> u_cond U (condHlp r) = Some fn ->
+  forall x, (let '(c1, a) := collect_args c (condHlpArg r) [] in snd (fn (ncalls c1) a)) = Some x ->
+  snd (follow U (S f) r c) = Some x.
+Proof.
+  intros H1 H2 H3 H4 x Hx. rewrite (cond_helper_decides f r c fn H1 H2 H3 H4).
+  destruct (collect_args c (condHlpArg r) []) as [c1 a]. unfold log_call. cbv zeta.
+  rewrite Hx. reflexivity.
 Qed.
 
 (* an unregistered helper fails the rule *)
